@@ -230,6 +230,10 @@ def run_cli(case):
         argv += ["tcvmod." + fn for fn in fns]
     else:
         argv = [ENTRY["tbot"], "--log", log, "-T", moddir] + names
+        if len(names) >= 2 and zlib.crc32(case.line().encode()) % 2 == 0:
+            # a testcase parameter on the command line that none of the testcases takes (it is filtered out per
+            # testcase, with a warning, when several testcases are scheduled): verdicts and events are the same
+            argv[1:1] = ["-p", "tcv_unused_parameter=1"]
     env = dict(os.environ)
     env["PYTHONPATH"] = repo
     env.pop("TBOTPATH", None)
